@@ -62,6 +62,73 @@ static void concat_merge(void *clos, const uint8_t *key, size_t len_key, const u
   memcpy(*merged, v0, l0);
   memcpy(*merged + l0, v1, l1);
 }
+// Second value family ("modsum", vmode 1): values are byte strings of any length read as a big-endian integer mod 65536;
+// the merge function adds the operands and returns the MINIMAL encoding of the sum, so a merged value is usually shorter
+// than its operands (the concatenating function above can only grow values).  Addition is commutative and associative, so
+// the expected fold is independent of the order the library folds in; a dropped or doubly-used operand changes the sum.
+inline unsigned msum_int(const uint8_t *p, size_t n) {
+  unsigned v = 0;
+  for (size_t i = 0; i < n; i++) v = ((v << 8) | p[i]) & 0xffff;
+  return v;
+}
+inline unsigned msum_int(const bytes &b) { return msum_int((const uint8_t *)b.data(), b.size()); }
+inline bytes msum_enc(unsigned n) {
+  n &= 0xffff;
+  bytes b;
+  if (n >> 8) b.push_back((char)(n >> 8));
+  if (n) b.push_back((char)(n & 0xff));
+  return b;
+}
+inline bytes msum_value(int src, int ordinal) {  // deterministic, length 0..40
+  uint64_t h = (uint64_t)(src + 1) * 0x9E3779B97F4A7C15ull + (uint64_t)(ordinal + 1) * 0xC2B2AE3D27D4EB4Full;
+  h ^= h >> 29;
+  h *= 0xBF58476D1CE4E5B9ull;
+  h ^= h >> 32;
+  static const int lens[] = {0, 1, 2, 2, 3, 5, 9, 40};
+  int len = lens[h & 7];
+  bytes b;
+  uint64_t x = h >> 3;
+  for (int i = 0; i < len; i++) {
+    b.push_back((char)(x & 0xff));
+    x = x * 6364136223846793005ull + 1442695040888963407ull;
+    x ^= x >> 17;
+  }
+  return b;
+}
+inline bytes family_value(int vmode, int src, int ordinal) { return vmode ? msum_value(src, ordinal) : token(src, ordinal); }
+static void modsum_merge(void *clos, const uint8_t *key, size_t len_key, const uint8_t *v0, size_t l0, const uint8_t *v1, size_t l1,
+                         uint8_t **merged, size_t *len_merged) {
+  MergeClos *mc = (MergeClos *)clos;
+  long long my_call = __atomic_add_fetch(&mc->calls, 1, __ATOMIC_SEQ_CST);
+  (void)key;
+  (void)len_key;
+  if (mc->fail_at >= 0 && my_call == mc->fail_at) {
+    if (mc->fail_style == 0) {
+      *merged = nullptr;
+      *len_merged = 0;
+    }
+    return;
+  }
+  bytes out = msum_enc(msum_int(v0, l0) + msum_int(v1, l1));
+  *len_merged = out.size();
+  *merged = (uint8_t *)malloc(out.size() ? out.size() : 1);
+  memcpy(*merged, out.data(), out.size());
+}
+inline mtbl_merge_func family_merge_func(int vmode) { return vmode ? modsum_merge : concat_merge; }
+// expected value of a key given the values folded for it, in either family
+inline bytes fold_expected(int vmode, const std::vector<bytes> &vals) {
+  bytes out;
+  if (!vmode) {
+    for (auto &v : vals) out += v;
+    return out;
+  }
+  if (vals.size() == 1) return vals[0];
+  unsigned s = 0;
+  for (auto &v : vals) s += msum_int(v);
+  return msum_enc(s);
+}
+inline bool family_value_eq(int vmode, const bytes &a, const bytes &b) { return vmode ? a == b : token_multiset_eq(a, b); }
+
 static int dupsort_bytewise(void *clos, const uint8_t *, size_t, const uint8_t *v0, size_t l0, const uint8_t *v1, size_t l1) {
   int sign = clos ? -1 : 1;
   size_t n = l0 < l1 ? l0 : l1;
@@ -155,7 +222,9 @@ struct SrcSpec {
 };
 struct SrcFamily {
   std::vector<SrcSpec> srcs;
+  int vmode = 0;  // 0: unique 4-byte tokens + concatenating merge function; 1: variable-length values + modsum merge function
   void ser(Out &o) const {
+    if (vmode) o << "vmode " << vmode << "\n";
     for (size_t i = 0; i < srcs.size(); i++) {
       o << "src " << i << " kind=" << srcs[i].kind;
       for (auto &k : srcs[i].keys) o << " " << (k.empty() ? "-" : hex(k));
@@ -163,6 +232,7 @@ struct SrcFamily {
     }
   }
   void parse_row(const std::vector<std::string> &row) {
+    if (row[0] == "vmode" && row.size() > 1) vmode = atoi(row[1].c_str()) ? 1 : 0;
     if (row[0] != "src") return;
     SrcSpec s;
     for (size_t i = 2; i < row.size(); i++) {
@@ -173,7 +243,7 @@ struct SrcFamily {
   }
   // tables hold strictly increasing keys; a user-defined source may yield the same key several times (non-decreasing)
   bool valid() const {
-    if (srcs.size() > 12) return false;
+    if (srcs.size() > 32) return false;
     for (auto &s : srcs) {
       if (s.kind < 0 || s.kind > 1) return false;
       for (size_t i = 1; i < s.keys.size(); i++) {
@@ -194,17 +264,25 @@ struct SrcFamily {
   }
   KVs content(size_t i) const {
     KVs kv;
-    for (size_t j = 0; j < srcs[i].keys.size(); j++) kv.emplace_back(srcs[i].keys[j], token((int)i, (int)j));
+    for (size_t j = 0; j < srcs[i].keys.size(); j++) kv.emplace_back(srcs[i].keys[j], family_value(vmode, (int)i, (int)j));
     return kv;
   }
-  // merged model under the concatenating merge function (values: concatenation in source order; compared as token multisets)
+  // merged model under the family's merge function (vmode 0: concatenation in source order, compared as token multisets;
+  // vmode 1: the modular sum, compared exactly)
   RefTable merged() const {
-    std::map<bytes, bytes, BLess> m;
+    std::map<bytes, std::vector<bytes>, BLess> m;
     for (size_t i = 0; i < srcs.size(); i++)
-      for (auto &kv : content(i)) m[kv.first] += kv.second;
+      for (auto &kv : content(i)) m[kv.first].push_back(kv.second);
     RefTable t;
-    for (auto &kv : m) t.e.push_back(kv);
+    for (auto &kv : m) t.e.emplace_back(kv.first, fold_expected(vmode, kv.second));
     return t;
+  }
+  mtbl_merge_func merge_func() const { return family_merge_func(vmode); }
+  bool value_eq(const bytes &a, const bytes &b) const { return family_value_eq(vmode, a, b); }
+  ValueCmp cmp() const {
+    ValueCmp v;
+    if (!vmode) v.eq = token_multiset_eq;
+    return v;
   }
   std::map<bytes, int, BLess> occurrences() const {
     std::map<bytes, int, BLess> m;
@@ -221,8 +299,10 @@ inline SrcFamily gen_family(int max_sources = 6, bool allow_user = true) {
   unsigned char al[4];
   int off = pick(0, 4);
   for (int i = 0; i < 4; i++) al[i] = alpha_all[(off + i * (1 + off % 2)) % 8];
-  int ns = weighted({4, 18, 26, 22, 14, 10, 6});
+  int ns = weighted({4, 16, 22, 18, 12, 8, 6, 14});
+  if (ns == 7) ns = pick(7, 16);  // wide mergers: heaps three and four levels deep
   if (ns > max_sources) ns = max_sources;
+  f.vmode = chance(30);
   int len_cap = weighted({30, 55, 15}) + 1;  // max key length 1..3
   for (int s = 0; s < ns; s++) {
     SrcSpec sp;
